@@ -64,6 +64,25 @@ def correspond(ctx):
                 sig = g_list([f"{b}%nat" for b in bits])
                 exprs.append(f"(vec_idx {sig}, solver_state_idx {sig}, map (fun i => z_sign {L}%nat i (solver_state_idx {sig})) (seq 0 {L}))")
                 cases.append((s, solver, order))
+    # operators: Z_i as an MPO, converted with to_matrix and to_sparse_matrix (the latter feeds Lindblad and MCWF)
+    zc, ze, zi = [], [], []
+    for L in lengths:
+        for i in range(L):
+            m = MPO()
+            m.from_pauli_sum(terms=[(1.0, f"Z{i}")], length=L)
+            dd = np.real(np.diag(m.to_matrix()))
+            ds = np.real(m.to_sparse_matrix().diagonal())
+            zi.append(([bool(x < 0) for x in dd], [bool(x < 0) for x in ds]))
+            ze.append(f"map (fun k => z_sign {L}%nat {i}%nat k) (seq 0 {2**L})")
+            zc.append((L, i))
+    zv = common.coq_eval_sharded(HEADER, ze, tag="c06z")
+    for (L, i), (dd, ds), mz in zip(zc, zi, zv):
+        ctx.case(nontrivial_key=("embed", L, i) if L > 2 else None, validated=True)
+        ctx.count("embedded_Z")
+        if dd != mz:
+            ctx.mismatch("MPO.to_matrix of Z_i vs SiteOrder.z_sign", {"L": L, "i": i}, dd, mz)
+        if ds != mz:
+            ctx.mismatch("MPO.to_sparse_matrix of Z_i vs SiteOrder.z_sign", {"L": L, "i": i}, ds, mz)
     vals = common.coq_eval_sharded(HEADER, exprs, tag="c06")
     for (s, solver, order), (nz, mc, signs), (mv, ms, mz) in zip(cases, impl, vals):
         ctx.case(nontrivial_key=(s, solver, order) if s != s[::-1] else None, validated=True,
@@ -85,7 +104,21 @@ def evolve_oracle(args):
 
     L, solver, order = args["L"], args["solver"], args["order"]
     kw = args["state"]
-    if args["ham"] == "ising":
+    if args["ham"] == "inhomogeneous":
+        rng = np.random.default_rng(args.get("hseed", 1))
+        terms = []
+        for i in range(L):
+            terms.append((float(rng.uniform(-1, 1)), f"X{i}"))
+            terms.append((float(rng.uniform(-1, 1)), f"Z{i}"))
+        for i in range(L - 1):
+            terms.append((float(rng.uniform(-1, 1)), f"Z{i} Z{i + 1}"))
+        H = MPO()
+        H.from_pauli_sum(terms=terms, length=L)
+        hd = np.zeros((2**L, 2**L), dtype=complex)
+        for c, spec in terms:
+            pl = {int(tok[1:]): dense.PAULI[tok[0]] for tok in spec.split()}
+            hd += c * dense.op_on(L, pl)
+    elif args["ham"] == "ising":
         H, hd = MPO.ising(L, args["J"], args["g"]), dense.ising(L, args["J"], args["g"])
     else:
         H, hd = MPO.heisenberg(L, args["J"], 0.5 * args["J"], 0.3, args["g"]), dense.heisenberg(L, args["J"], 0.5 * args["J"], 0.3, args["g"])
@@ -132,7 +165,7 @@ def search(ctx):
         procs = []
         if solver == "Lindblad" and k % 2 == 0:
             procs = [{"name": str(ctx.rng.choice(["lowering", "pauli_z", "raising"])), "sites": [int(ctx.rng.integers(0, L))], "strength": 0.4}]
-        plan.append(dict(L=L, solver=solver, order=order, state=kw, ham=str(ctx.rng.choice(["ising", "heisenberg"])),
+        plan.append(dict(L=L, solver=solver, order=order, state=kw, ham=str(ctx.rng.choice(["ising", "heisenberg", "inhomogeneous", "inhomogeneous"])), hseed=int(ctx.rng.integers(0, 10**6)),
                          J=float(ctx.rng.uniform(0.5, 1.2)), g=float(ctx.rng.uniform(0.3, 0.9)), procs=procs))
     for a in plan:
         try:
